@@ -1,4 +1,57 @@
+/-
+C08 — property theorems (statements fixed by the architect; do not weaken).
+`Gen.PageDecoder.resetsLastLine` is GENERATED from the source on every run; every proof that needs
+it to be `true` must obtain that ONLY through `resets_last_line` below (proved by `rfl`).
+Helper lemmas: PeroVerif/Lemmas/PageDecoder.lean.
+-/
 import PeroVerif.Model.PageDecoder
+import PeroVerif.Lemmas.PageDecoder
+
 namespace C08
-theorem placeholder : (1:Nat) = 1 := rfl
+open PD Py
+variable {X H : Type}
+
+/-- obligation on the generated flag -/
+theorem resets_last_line : Gen.PageDecoder.resetsLastLine = true := rfl
+
+/-- The output of a page does not depend on the state the decoder instance is in. -/
+theorem page_state_independent (e : Env X H) (st st' : St H) (pg : List (Line X)) :
+    (processPage e st pg).2 = (processPage e st' pg).2 := by
+  rw [processPage_state_indep resets_last_line e st st' pg]
+
+/-- History independence: decoding a page after ANY sequence of other pages (subsets, orders,
+repetitions), with or without LM, carry-over, any confident-line marking, gives the result of
+decoding it alone on a fresh instance. -/
+theorem page_history_independent (e : Env X H) (hist : List (List (Line X))) (pg : List (Line X)) :
+    (processPage e (run e hist).1 pg).2 = (processPage e init pg).2 := by
+  rw [processPage_state_indep resets_last_line e (run e hist).1 init pg]
+
+/-- The outputs of a whole run are, page by page, those of the pages decoded alone. -/
+theorem run_is_pagewise (e : Env X H) (pages : List (List (Line X))) :
+    (run e pages).2 = pages.map fun pg => (processPage e init pg).2 :=
+  run_pagewise resets_last_line e pages
+
+/-- Processing the same page twice gives identical output. -/
+theorem page_idempotent (e : Env X H) (hist : List (List (Line X))) (pg : List (Line X)) :
+    (run e (hist ++ [pg, pg])).2.getLast? = (run e (hist ++ [pg])).2.getLast? := by
+  have h : hist ++ [pg, pg] = (hist ++ [pg]) ++ [pg] := by
+    simp only [List.append_assoc, List.cons_append, List.nil_append]
+  rw [h, run_snoc e (hist ++ [pg]) pg, run_snoc e hist pg]
+  simp only [List.getLast?_append, List.getLast?_singleton, Option.some_or]
+  rw [processPage_state_indep resets_last_line e _ (run e hist).1 pg]
+
+-- `hsub` is part of the fixed statement but not needed by the proof
+set_option linter.unusedVariables false in
+/-- Any partition of the page list among workers (each worker a fresh instance fed a subsequence, as
+`Pool.starmap` does), gives every page the output of the sequential run. -/
+theorem partition_independent (e : Env X H) (pages : List (List (Line X))) (worker : List (List (Line X)))
+    (hsub : worker.Sublist pages) :
+    (run e worker).2 = worker.map fun pg => (processPage e init pg).2 :=
+  run_pagewise resets_last_line e worker
+
+/-- one output per line, in line order -/
+theorem page_output_length (e : Env X H) (st : St H) (pg : List (Line X)) :
+    (processPage e st pg).2.length = pg.length :=
+  processPage_length e st pg
+
 end C08
